@@ -122,8 +122,8 @@ theorem C20_table_discipline (tbl : List MethodRow) (hw : writersExclusive tbl =
     · intro hn
       simp [hreach, hn] at h2
 
-/-- … and a table with a facade-reachable writer under the *shared* lock (what the code has at the
-    time of writing: `Alloc`/`Free` take `std::shared_lock`) admits an interleaving in which two
+/-- … and a table with a facade-reachable writer under the *shared* lock (what the code had in the
+    tree before fix 2b93469: `Alloc`/`Free` took `std::shared_lock`) admits an interleaving in which two
     threads write the pool state at the same time. -/
 theorem C20_table_shared_writer_overlaps (r : MethodRow) (hl : r.lock = .shared) (hwr : r.writes = true)
     (poolLoc mtx : Nat) :
